@@ -1,9 +1,9 @@
 package props
 
 import (
-	"google.golang.org/grpc/metadata"
 	"context"
 	"fmt"
+	"google.golang.org/grpc/metadata"
 	"math"
 	"math/big"
 	"regexp"
@@ -203,15 +203,15 @@ func FuzzC08(f *testing.F) {
 type C08E2E struct {
 	Kind int `json:"kind"`
 	// caller side
-	Mode      string `json:"mode"`       // api | header
-	TimeoutUs int64  `json:"timeout_us"` // api: caller timeout in microseconds (<=0: already expired)
-	TransitMs int64  `json:"transit_ms"` // virtual time the request spends in flight
-	HdrKey    string `json:"hdr_key"`    // header: key spelling
-	HdrVal    string `json:"hdr_val"`    // header: raw value
-	Ser       bool   `json:"ser"`
-	Stats     bool   `json:"stats,omitempty"`     // do-nothing stats handlers on both sides
-	Intercept bool   `json:"intercept,omitempty"` // pass-through interceptors on both sides
-	MD        []kit.KV `json:"md,omitempty"`      // the caller's outgoing metadata (api modes)
+	Mode      string   `json:"mode"`       // api | header
+	TimeoutUs int64    `json:"timeout_us"` // api: caller timeout in microseconds (<=0: already expired)
+	TransitMs int64    `json:"transit_ms"` // virtual time the request spends in flight
+	HdrKey    string   `json:"hdr_key"`    // header: key spelling
+	HdrVal    string   `json:"hdr_val"`    // header: raw value
+	Ser       bool     `json:"ser"`
+	Stats     bool     `json:"stats,omitempty"`     // do-nothing stats handlers on both sides
+	Intercept bool     `json:"intercept,omitempty"` // pass-through interceptors on both sides
+	MD        []kit.KV `json:"md,omitempty"`        // the caller's outgoing metadata (api modes)
 }
 
 func genC08E2E(t *rapid.T) C08E2E {
